@@ -137,8 +137,11 @@ class Report:
         }
         if extra:
             ev.update(extra)
-        os.makedirs(os.path.join(ROOT, "evidence"), exist_ok=True)
-        evpath = os.path.join(ROOT, "evidence", f"{self.prop}.json")
+        # VERIF_SCRATCH_OUT: seeded-change experiments (tools/try_seed*.sh) write their evidence and replay files elsewhere, so that the
+        # committed evidence always comes from a run against /repo itself
+        evdir = os.path.join(os.environ["VERIF_SCRATCH_OUT"], "evidence") if os.environ.get("VERIF_SCRATCH_OUT") else os.path.join(ROOT, "evidence")
+        os.makedirs(evdir, exist_ok=True)
+        evpath = os.path.join(evdir, f"{self.prop}.json")
         with open(evpath, "w") as f:
             json.dump(ev, f, indent=1, sort_keys=True, default=str)
             f.write("\n")
